@@ -164,6 +164,17 @@ def build():
     one(r'assert!\(self\.zonefile\.buf\.start\s*>\s*0,\s*"missing token prefix space"\)', b, "scan_name prefix assertion")
     defs.append(("scan_name_handles_at", "bool", "true" if re.search(r"skip_at_token\(\)", b) else "false"))
 
+    # ---- scan_string: is the closing quote kept out of the result?
+    b = fn_body(inp, "scan_string", after="impl Scanner for EntryScanner")
+    if re.search(r"let\s+mut\s+write\s*=\s*self\.zonefile\.buf\.start\s*;", b):
+        drops = False
+    elif re.search(r"let\s+is_quoted\s*=\s*self\.zonefile\.buf\.cat\s*==\s*ItemCat::Quoted\s*;", b) and \
+         re.search(r"let\s+mut\s+write\s*=\s*if\s+is_quoted\s*&&\s*self\.zonefile\.buf\.cat\s*==\s*ItemCat::None\s*\{\s*self\.zonefile\.buf\.start\s*-\s*1\s*\}\s*else\s*\{\s*self\.zonefile\.buf\.start\s*\}\s*;", b):
+        drops = True
+    else:
+        raise GenError("scan_string: initial write position not recognised")
+    defs.append(("string_drops_quote", "bool", "true" if drops else "false"))
+
     # ---- initial state
     b = fn_body(inp, "with_buf", after="impl Zonefile")
     m = one(r"last_ttl:\s*Ttl::from_secs\((\d+)\)", b, "default TTL")
